@@ -20,7 +20,8 @@ import (
 func scenarios(tier string) []engine.Scenario {
 	thorough := tier == "thorough"
 	var scs []engine.Scenario
-	t := tinyPrimes(6) // 97 193 257 353 449 577
+	setUniverse(16, false) // the whole-integer exhaustion packs 16 integers per polynomial
+	t := tinyPrimes(6)     // 97 193 257 353 449 577
 
 	// ---- whole-integer exhaustion on tiny chains ------------------------------------------------
 	// every integer of [0,Q): the three rotations of 97·193·257 (each prime once as the divisor) and 2-prime chains
@@ -83,39 +84,100 @@ func scenarios(tier string) []engine.Scenario {
 		}
 	}
 
-	// ---- boundary alphabets on every chain class, every (levelQ, levelP) -------------------------
-	for _, ch := range chains() {
-		for _, o := range divOps {
-			scs = append(scs, divAlphaScenario(ch, o))
-		}
-		for _, o := range beOps {
-			scs = append(scs, beAlphaScenario(ch, o))
-		}
-		scs = append(scs, extendScenario(ch), evaluatorModDownScenario(ch))
-		scs = append(scs, pow2Scenario(ch))
-		for nQ := 1; nQ <= len(ch.Q); nQ++ {
-			for nP := 0; nP <= len(ch.P); nP++ {
-				scs = append(scs, decomposerScenario(ch, nQ, nP))
-				if nP > 0 {
-					scs = append(scs, evaluatorDecomposeScenario(ch, nQ, nP))
-				}
-				scs = append(scs, gadgetRecombineScenario(ch, nQ, nP))
-			}
-		}
+	// ---- boundary alphabets on every chain class, every (levelQ, levelP), in several universes ------
+	type universe struct {
+		n       int
+		ci      bool
+		classes []string // nil: all
 	}
-	// a 6-prime Q with 4 P primes: more digit shapes ("#P does not divide #Q", 2 full digits + tail)
+	unis := []universe{
+		{16, false, nil},
+		{64, false, []string{"ratios", "mixed", "big61", "tiny"}}, // 8 blocks of 8 lanes, NTT stage loops
+		{16, true, []string{"mid30", "mixed"}},                    // conjugate-invariant ring
+		{32, true, []string{"ratios", "big61"}},                   // conjugate-invariant ring, odd log N
+	}
 	if thorough {
-		m := below(40, 10)
-		wide := chain{"wide40", m[:6], m[6:10]}
-		for nP := 0; nP <= 4; nP++ {
-			scs = append(scs, decomposerScenario(wide, 6, nP))
-			if nP > 0 {
-				scs = append(scs, evaluatorDecomposeScenario(wide, 6, nP))
+		unis = []universe{{16, false, nil}, {32, false, nil}, {64, false, nil}, {16, true, nil}, {32, true, nil}, {64, true, []string{"ratios", "mixed", "tiny"}}}
+	}
+	for _, u := range unis {
+		setUniverse(u.n, u.ci)
+		var us []engine.Scenario
+		for _, ch := range chains() {
+			if u.classes != nil && !contains(u.classes, ch.name) {
+				continue
 			}
-			scs = append(scs, gadgetRecombineScenario(wide, 6, nP))
+			for _, o := range divOps {
+				us = append(us, divAlphaScenario(ch, o))
+			}
+			for _, o := range beOps {
+				us = append(us, beAlphaScenario(ch, o))
+			}
+			us = append(us, extendScenario(ch), evaluatorModDownScenario(ch), pow2Scenario(ch), beSequenceScenario(ch))
+			for nQ := 1; nQ <= len(ch.Q); nQ++ {
+				for nP := 0; nP <= len(ch.P); nP++ {
+					us = append(us, decomposerScenario(ch, nQ, nP))
+					if nP > 0 {
+						us = append(us, evaluatorDecomposeScenario(ch, nQ, nP))
+					}
+					us = append(us, gadgetRecombineScenario(ch, nQ, nP))
+				}
+			}
+			// state carried by one Evaluator / its ShallowCopy between calls
+			if ch.name == "mixed" || ch.name == "ratios" || thorough {
+				us = append(us, evaluatorSequenceScenario(ch, len(ch.Q), len(ch.P)), evaluatorSequenceScenario(ch, 4, 2))
+			}
+		}
+		// a 6-prime Q with 4 P primes: digit shapes on both sides of "#P divides #Q" (6/1, 6/2, 6/3 divide; 6/4 does not),
+		// every intermediate levelP of a 4-prime P
+		if !u.ci && (u.n == 16 || thorough) {
+			m := below(40, 10)
+			wide := chain{"wide40", m[:6], m[6:10]}
+			for nP := 0; nP <= 4; nP++ {
+				us = append(us, decomposerScenario(wide, 6, nP))
+				if nP > 0 {
+					us = append(us, evaluatorDecomposeScenario(wide, 6, nP))
+				}
+				us = append(us, gadgetRecombineScenario(wide, 6, nP))
+			}
+			us = append(us, beSequenceScenario(chain{"wide40", m[:6], m[6:9]}))
+		}
+		scs = append(scs, inUniverse(u.n, u.ci, us)...)
+	}
+	setUniverse(16, false)
+	return scs
+}
+
+func contains(l []string, s string) bool {
+	for _, x := range l {
+		if x == s {
+			return true
 		}
 	}
-	return scs
+	return false
+}
+
+// inUniverse makes the scenarios run under setUniverse(n, ci) and tags their names (the default universe N=16,
+// standard ring keeps the plain names).
+func inUniverse(n int, ci bool, scs []engine.Scenario) []engine.Scenario {
+	tag := ""
+	if n != 16 || ci {
+		tag = fmt.Sprintf("N=%d", n)
+		if ci {
+			tag += ",conjugate-invariant"
+		}
+		tag += "/"
+	}
+	out := make([]engine.Scenario, len(scs))
+	for i, sc := range scs {
+		fn := sc.Fn
+		out[i] = engine.Scenario{Name: tag + sc.Name, Bound: sc.Bound, Fn: func(c *engine.Chooser) {
+			setUniverse(n, ci)
+			defer setUniverse(16, false)
+			fn(c)
+			c.Cover("universe", fmt.Sprintf("N=%d,ci=%v", n, ci))
+		}}
+	}
+	return out
 }
 
 func main() {
@@ -139,7 +201,9 @@ func main() {
 		QuickBudget:    150 * time.Second,
 		ThoroughBudget: 25 * time.Minute,
 		Expect: func(tier string) []string {
-			e := []string{"be-e=zero", "decomposer-tiny=exhaustive", "decomposer-branch=reconstruct", "decomposer-branch=has-copy-only-digit",
+			setUniverse(16, false)
+			e := []string{"universe=N=64,ci=false", "universe=N=16,ci=true", "universe=N=32,ci=true", "be-sequence-receiver=ShallowCopy", "be-sequence-receiver=NewBasisExtender",
+				"evaluator-sequence-receiver=ShallowCopy", "evaluator-sequence-receiver=NewEvaluator", "div-class=ratios", "be-e=zero", "decomposer-tiny=exhaustive", "decomposer-branch=reconstruct", "decomposer-branch=has-copy-only-digit",
 				"decomposer-tail=partial-last-digit", "gadget-class=rns", "gadget-class=base2", "gadget-path=multipleP", "gadget-path=singleP-or-pow2",
 				"pow2-cover=covers", "evaluator-decompose=Evaluator.DecomposeNTT", "evaluator-decompose=Evaluator.DecomposeSingleNTT",
 				"extend-fn=0", "extend-fn=1", "extend-fn=2", "evaluator-moddown=noP", "evaluator-moddown=in=true/out=true", "evaluator-moddown=in=true/out=false",
